@@ -78,7 +78,7 @@ pub broadcast proof fn lemma_max_is_earliest(m: Multiset<TimeoutData>, x: Timeou
 //@ entry
         proof { broadcast use TimeoutData::lemma_mk; }
 //@ enditem
-//@ item src/sources/timer.rs / impl TimerWheel / fn cancel props=C05
+//@ item src/sources/timer.rs / impl TimerWheel / fn cancel props=C05,C12
 //@ entry
         proof { broadcast use lemma_max_is_earliest; }
 //@ exit
